@@ -48,6 +48,12 @@ def run(tier, seed):
                 if r:
                     recipes.append(r)
     ac.validate(run, "assemblies", recipes)
+    if not q:      # canonical assemblies of real registry plasmids (kb-size, annotated)
+        from . import registry_asm
+        rr = registry_asm.assembly_recipes(rng, 8)
+        run.extra["registry_assemblies"] = len(rr)
+        if rr:
+            ac.validate(run, "registry-assemblies", rr)
     return run.finish("TLC: ImplProduct = Formula on every rotation and argument order of the small worlds (3 miniature geometries); I->S: "
                       "assemblies over every distinct real geometry (26) and 5 synthetic ones, chain lengths 1-5, site-free random "
                       "targets/backbones/placeholders (exactly two sites per plasmid), random rotation of every plasmid, shuffled "
